@@ -123,6 +123,7 @@ func (r *replica) bind() {
 
 func (r *replica) stop() {
 	r.kit.Ang.VerifAsmEvents().Stop()
+	r.kit.Ang.VerifAsmClose()
 	r.app.Stop()
 }
 
@@ -673,6 +674,40 @@ func runTrace(rep *mbt.Report, ti int, tr mbt.Trace, base string) {
 				return
 			}
 			rn.compareRep(si, st, rid)
+		case "Query":
+			rid := mbt.Int(st.Args[0])
+			var b body
+			var sigs []sigEntry
+			decode(st.Args[1], &b)
+			decode(st.Args[2], &sigs)
+			snd, want := mbt.Str(st.Args[3]), mbt.Str(st.Args[4])
+			rn.tagSeq++
+			tag := rn.tagSeq
+			raw := w.ethTx(w.accounts[snd], rn.sent[snd], "contract", w.accounts[b.Addr].addr, w.adminCmd(b, sigs, tag))
+			r := rn.reps[rid]
+			r.calls = nil
+			r.bind()
+			before := len(r.kit.Ang.VerifAsmAdminOp().ChangedValidators)
+			p, stack := mbt.Catch(func() { r.app.Query(append([]byte{0}, raw...)) }) // QueryType_Contract
+			rep.Checks++
+			rep.Count("query")
+			if p != nil {
+				rn.fail(si, st, "panic", true, "Query-panic", fmt.Sprintf("%v\n%s", p, stack), nil, nil)
+				return
+			}
+			obs := "rejQuery"
+			for _, c := range r.calls {
+				if c.tag == tag {
+					obs = classify(c.err, c.changed)
+				}
+			}
+			after := len(r.kit.Ang.VerifAsmAdminOp().ChangedValidators)
+			if after != before {
+				rn.fail(si, st, "property", true, "UniformApplication", fmt.Sprintf("a read-only query on replica %d staged %d validator change(s) in its admin plugin", rid, after-before), nil, nil)
+			}
+			if obs != want {
+				rn.fail(si, st, "mismatch", accepting(obs) || accepting(want), "Query-result:"+want+":"+strings.SplitN(obs, ":", 2)[0], "query outcome differs", want, obs)
+			}
 		case "Check":
 			// CheckMajor23 alone, on the plugin of replica 1 against its current validator set
 			var sigs []sigEntry
